@@ -355,7 +355,7 @@ func cmdCheck(args []string) int {
 			}
 		} else {
 			undecided = append(undecided, o.ID)
-			lines = append(lines, fmt.Sprintf("UNDECIDED obligation=%s verdict=%s (not in baseline; not reported as a violation)", o.ID, o.Result.Verdict))
+			lines = append(lines, fmt.Sprintf("UNDECIDED obligation=%s verdict=%s (never established on the pinned tree: not claimed, not reported as a violation)", o.ID, o.Result.Verdict))
 			nProp-- // not claimed
 		}
 	}
